@@ -151,7 +151,7 @@ Proof.
   - match goal with |- context [let '(a, b) := ?X in _] => destruct X end; reflexivity.
   - match goal with |- context [let '(a, b) := ?X in _] => destruct X end. destruct items; reflexivity.
   - destruct f; reflexivity.
-  - destruct k; reflexivity.
+  - destruct k; try reflexivity; unfold the_node; destruct (String.eqb _ "perFrameHook"); reflexivity.
   - unfold the_name_node. destruct (assoc_str (nm en n) ASSIGN_KNOWN_PROPERTIES); reflexivity.
 Qed.
 
@@ -263,10 +263,11 @@ Proof.
     norm_render. reflexivity.
   - (* the <special / date-time / system property> *) intros k i Hok pc ind. cbn [reify_e pp_tok]. norm_render.
     destruct k; cbn [the_node the_table text_ok] in *; try reflexivity.
-    erewrite accessor_text_own; [reflexivity | reflexivity | | exact Hok].
-    destruct (assoc_or (nth i (map fst SYSTEM_PROPERTIES) "") SYSTEM_PROPERTIES) as [|c r]; [discriminate Hok|].
-    unfold starts_with in Hok. cbn [prefix] in Hok.
-    match type of Hok with (if Ascii.ascii_dec ?a c then _ else _) = _ => destruct (Ascii.ascii_dec a c) as [<-|] end; [reflexivity|discriminate Hok].
+    { erewrite accessor_text_own; [reflexivity | reflexivity | | exact Hok].
+      destruct (assoc_or (nth i (map fst SYSTEM_PROPERTIES) "") SYSTEM_PROPERTIES) as [|c r]; [discriminate Hok|].
+      unfold starts_with in Hok. cbn [prefix] in Hok.
+      match type of Hok with (if Ascii.ascii_dec ?a c then _ else _) = _ => destruct (Ascii.ascii_dec a c) as [<-|] end; [reflexivity|discriminate Hok]. }
+    destruct (String.eqb (nth i NUM_OF_TYPES "") "perFrameHook"); reflexivity.
   - (* the <name> *) intros n _ pc ind. cbn [reify_e pp_tok]. norm_render. unfold the_name_node, the_name_text.
     destruct (assoc_str (nm en n) ASSIGN_KNOWN_PROPERTIES) as [o|]; reflexivity.
   - (* the <name> of <expression> *) intros n x IHx [Hx Hp] pc ind. cbn [reify_e pp_tok].
